@@ -4,6 +4,7 @@ import (
 	"bytes"
 	"fmt"
 	"net"
+	"time"
 
 	"github.com/refraction-networking/conjure/pkg/transports"
 	pb "github.com/refraction-networking/conjure/proto"
@@ -139,8 +140,11 @@ func (Transport) WrapConnection(data *bytes.Buffer, c net.Conn, phantom net.IP, 
 
 		mc := transports.PrependToConn(c, data)
 		wrapped, err := factory.WrapConn(mc)
+		if err != nil {
+			return r, wrapped, err
+		}
 
-		return r, wrapped, err
+		return r, &deadlineConn{Conn: wrapped, under: c}, nil
 	}
 
 	// If we read more than min handshake len, but less than max and didn't find
@@ -154,6 +158,20 @@ func (Transport) WrapConnection(data *bytes.Buffer, c net.Conn, phantom net.IP, 
 	// for the given phantom.
 	return nil, nil, transports.ErrNotTransport
 }
+
+// deadlineConn is the obfs4 connection with working deadlines. The obfs4 library's connection answers
+// SetDeadline and SetWriteDeadline with ENOTSUP, but the station's relay sets (and refreshes) deadlines on
+// both of its connections and gives up on a connection that refuses them - so an obfs4 tunnel was closed
+// before a single byte was relayed. All I/O of the obfs4 connection happens on the connection it was
+// wrapped around, so deadlines set there take effect.
+type deadlineConn struct {
+	net.Conn
+	under net.Conn
+}
+
+func (c *deadlineConn) SetDeadline(t time.Time) error      { return c.under.SetDeadline(t) }
+func (c *deadlineConn) SetReadDeadline(t time.Time) error  { return c.under.SetReadDeadline(t) }
+func (c *deadlineConn) SetWriteDeadline(t time.Time) error { return c.under.SetWriteDeadline(t) }
 
 // This function makes the assumption that any identifier with length 52 is an obfs4 registration.
 // This may not be strictly true, but any other identifier will simply fail to form a connection and
